@@ -876,8 +876,9 @@ class Machine:
                 f = t.get('f') or {}
                 names = [x for n_ in (f.get('rpath'), f.get('path')) if n_ for x in (n_, std_name(n_))]
                 h = None
+                from . import prims as _pr
                 for n_ in names:
-                    h = self.overrides.get(n_) or self.prims.get(n_)
+                    h = getattr(_pr, 'CONST_FNS', {}).get(n_) or self.overrides.get(n_) or self.prims.get(n_)
                     if h:
                         break
                 if h is None:
